@@ -48,6 +48,22 @@ Definition str_op (o : opcode) : bool :=
 Definition upv_op (o : opcode) : bool :=
   match o with OpGetUpvalue | OpSetUpvalue => true | _ => false end.
 
+(* the descriptor bytes of a Closure: (is_local, index) pairs; a non-local one names an upvalue of the enclosing function *)
+Fixpoint dok (bs : list N) (nu : nat) : Prop :=
+  match bs with
+  | il :: ix :: r => (il = 0%N -> N.to_nat ix < nu) /\ dok r nu
+  | _ => True
+  end.
+Lemma dok_mono bs : forall nu nu', nu <= nu' -> dok bs nu -> dok bs nu'.
+Proof.
+  assert (H : forall n (bs : list N), length bs <= n -> forall nu nu', nu <= nu' -> dok bs nu -> dok bs nu').
+  { induction n; intros bs0 Hl nu nu' Hle Hd.
+    - destruct bs0; simpl in *; auto. lia.
+    - destruct bs0 as [|il [|ix r]]; simpl in *; auto. destruct Hd as [H1 H2]. split.
+      intros E. specialize (H1 E). lia. apply (IHn r) with (nu := nu); auto. lia. }
+  intros. eapply (H (length bs)); eauto.
+Qed.
+
 (* well-formed instruction of a function with constants [ks] and [nu] upvalues *)
 Definition iok (ks : list const) (nu : nat) (i : ainstr) : Prop :=
   match layout_of (fst i) with
@@ -60,7 +76,7 @@ Definition iok (ks : list const) (nu : nat) (i : ainstr) : Prop :=
   | L16_8 => exists a b c, snd i = [a; b; c] /\ kstr ks (u16 a b)
   | LClosure => exists a b f uvs, snd i = a :: b :: uvs /\
                   nth_error ks (N.to_nat (u16 a b)) = Some (KFun f) /\
-                  length uvs = 2 * N.to_nat (f_upvalues f)
+                  length uvs = 2 * N.to_nat (f_upvalues f) /\ dok uvs nu
   end.
 
 Lemma nth_error_app_some {A} (l m : list A) n x : nth_error l n = Some x -> nth_error (l ++ m) n = Some x.
@@ -78,8 +94,8 @@ Proof.
   - intros (a & b & H1 & H2 & H3). exists a, b. split; auto. split; intros.
     apply kstr_app; auto. apply knotfun_app; auto.
   - intros (a & b & c & H1 & H2). exists a, b, c. split; auto. apply kstr_app; auto.
-  - intros (a & b & f & uvs & H1 & H2 & H3). exists a, b, f, uvs. split; auto. split; auto.
-    apply nth_error_app_some; auto.
+  - intros (a & b & f & uvs & H1 & H2 & H3 & H4). exists a, b, f, uvs. split; auto. split.
+    apply nth_error_app_some; auto. split; auto. eapply dok_mono; eauto.
 Qed.
 
 (* ------------------------------------------------------------------ *)
@@ -252,9 +268,27 @@ Record cinv (c : comp) (g : list ainstr) : Prop := mkCinv {
   ci_breaks : Forall (hole_at g) (concat (k_breaks c))
 }.
 
+(* every non-local upvalue descriptor of a compiler names an upvalue of the compiler that encloses it *)
+Definition uok (c : comp) (n : nat) : Prop :=
+  Forall (fun u : N * bool => snd u = false -> N.to_nat (fst u) < n) (k_upvalues c).
+Fixpoint uchain (l : list comp) : Prop :=
+  match l with
+  | [] => True
+  | c :: r => uok c (match r with e :: _ => length (k_upvalues e) | [] => 0 end) /\ uchain r
+  end.
+
 Definition GS : Type := (list ainstr * list (list ainstr))%type.
 Definition sinv (s : cstate) (G : GS) : Prop :=
-  cinv (s_cur s) (fst G) /\ Forall2 cinv (s_outer s) (snd G).
+  cinv (s_cur s) (fst G) /\ Forall2 cinv (s_outer s) (snd G) /\ uchain (s_cur s :: s_outer s).
+
+Lemma uchain_same l : forall l', map k_upvalues l' = map k_upvalues l -> uchain l -> uchain l'.
+Proof.
+  induction l as [|c r IH]; intros [|c' r'] E H; simpl in *; try discriminate; auto.
+  inversion E as [[E1 E2]]. destruct H as [H1 H2]. split; [|apply IH; auto].
+  unfold uok in *. rewrite E1.
+  destruct r as [|e r0], r' as [|e' r0']; simpl in *; try discriminate; auto.
+  inversion E2 as [[E3 E4]]. rewrite E3. auto.
+Qed.
 
 Definition cgrow (c c' : comp) : Prop :=
   (exists more, k_consts c' = k_consts c ++ more) /\ length (k_upvalues c) <= length (k_upvalues c').
@@ -329,6 +363,7 @@ Inductive fact :=
 | FBound (n : nat)                  (* n is an instruction boundary *)
 | FLoopsOf (k : comp)                (* used by FullCompileWFJ.v only: k_loops of the current compiler = k_loops k *)
 | FCatch (p t : nat)                (* used by FullCompileWFJ.v only: the PushExcHandler whose operands start at p has catch target t *)
+| FDesc (us : list (N * bool))      (* the non-local descriptors in us name upvalues of the current function *)
 | FPure (X : Prop).
 
 Definition sem (f : fact) (s : cstate) (g : list ainstr) : Prop :=
@@ -347,6 +382,7 @@ Definition sem (f : fact) (s : cstate) (g : list ainstr) : Prop :=
   | FBound n => boundary g n
   | FLoopsOf _ => True
   | FCatch _ _ => True
+  | FDesc us => Forall (fun u : N * bool => snd u = false -> N.to_nat (fst u) < length (k_upvalues c)) us
   | FPure X => X
   end.
 
@@ -371,6 +407,7 @@ Proof.
     + destruct Hsc as [Hsc|Hsc]; [|discriminate]. rewrite Hsc. destruct Hf; auto.
       right. rewrite Hk. apply kstr_app; auto.
     + eapply boundary_ext; eauto.
+    + eapply Forall_impl; [|exact Hf]. intros u0 Hu0 Hs'. specialize (Hu0 Hs'). lia.
   - apply IH. destruct Hsc; auto. right. simpl in H. destruct f; auto; discriminate.
 Qed.
 
@@ -427,15 +464,16 @@ Definition quiet {A} (sc : bool) (m : C A) : Prop :=
 
 Lemma T_quiet {A} sc fs (m : C A) : quiet sc m -> (sc = true \/ nodef fs = true) -> T fs m (fun _ => fs).
 Proof.
-  intros Hq Hsc s G a s' [Hc Ho] Hf H. destruct (Hq _ _ _ H) as ((A1 & A2 & A3 & A4) & A5 & A6).
+  intros Hq Hsc s G a s' [Hc [Ho Hu]] Hf H. destruct (Hq _ _ _ H) as ((A1 & A2 & A3 & A4) & A5 & A6).
   exists G.
   assert (Hle : le s G s' G).
   { split; [|split; [|split]]; auto using ext_refl.
     - split. exists []. rewrite app_nil_r; auto. rewrite A3; auto.
     - rewrite A5. apply F2ofix_refl. }
   split; [|split]; auto.
-  - split; [|rewrite A5; auto]. destruct Hc.
-    constructor; [congruence | rewrite A2, A3; auto | rewrite A2; auto | rewrite A4; auto].
+  - split; [|split; [rewrite A5; auto|]].
+    + destruct Hc. constructor; [congruence | rewrite A2, A3; auto | rewrite A2; auto | rewrite A4; auto].
+    + eapply uchain_same; [|exact Hu]. simpl. rewrite A3, A5. reflexivity.
   - eapply holds_le; eauto. destruct Hsc as [->|?]; auto.
 Qed.
 
@@ -890,6 +928,42 @@ Proof.
     destruct (IH _ _ _ _ E2) as (A1 & A2 & A3). split; auto.
 Qed.
 
+Lemma uok_mono c n n' : n <= n' -> uok c n -> uok c n'.
+Proof. intros Hn H. unfold uok in *. eapply Forall_impl; [|exact H]. intros u Hu Hs. specialize (Hu Hs). lia. Qed.
+
+Lemma add_upvalue_uok c i il u c' n :
+  add_upvalue c i il = Some (u, c') -> uok c n -> (il = false -> N.to_nat i < n) -> uok c' n.
+Proof.
+  unfold add_upvalue. destruct (find_upvalue (k_upvalues c) i il 0).
+  - intros H; inversion H; subst. auto.
+  - destruct (Nat.eqb _ _); [discriminate|]. intros H; inversion H; subst; clear H. intros Hc Hi.
+    unfold uok in *. cbn. apply Forall_app. split; auto.
+Qed.
+
+Lemma resolve_upvalue_chain name outer : forall c i c' outer',
+  resolve_upvalue_in name c outer = UFound i c' outer' -> uchain (c :: outer) -> uchain (c' :: outer').
+Proof.
+  induction outer as [|e outer IH]; simpl; intros c i c' outer' H Hu. discriminate.
+  destruct Hu as [Hc Hr].
+  destruct (resolve_local_c e name) eqn:E.
+  - destruct (add_upvalue c (N.of_nat i0) true) as [[u c1]|] eqn:E2; [|discriminate].
+    inversion H; subst; clear H. split.
+    + eapply add_upvalue_uok; eauto. discriminate.
+    + eapply (uchain_same (e :: outer)); [|exact Hr]. reflexivity.
+  - destruct (resolve_upvalue_in name e outer) as [i1 e1 o1| |] eqn:E2; try discriminate.
+    destruct (add_upvalue c i1 false) as [[u c1]|] eqn:E3; [|discriminate].
+    inversion H; subst; clear H.
+    destruct (resolve_upvalue_rel _ _ _ _ _ _ E2) as (A1 & A2 & A3).
+    split; [|eapply IH; eauto].
+    eapply add_upvalue_uok; eauto. eapply uok_mono; [|exact Hc]. destruct A1 as (_ & _ & _ & _ & _ & A). exact A.
+  - destruct (resolve_upvalue_in name e outer) as [i1 e1 o1| |] eqn:E2; try discriminate.
+    destruct (add_upvalue c i1 false) as [[u c1]|] eqn:E3; [|discriminate].
+    inversion H; subst; clear H.
+    destruct (resolve_upvalue_rel _ _ _ _ _ _ E2) as (A1 & A2 & A3).
+    split; [|eapply IH; eauto].
+    eapply add_upvalue_uok; eauto. eapply uok_mono; [|exact Hc]. destruct A1 as (_ & _ & _ & _ & _ & A). exact A.
+Qed.
+
 Lemma T_resolve_global fs x l :
   T fs (set_line l ;;; g <- identifier_constant x ;; cret (OpGetGlobal, OpSetGlobal, g))
     (fun r => FVar (fst (fst r)) (snd (fst r)) (snd r) :: fs).
@@ -911,11 +985,12 @@ Proof.
     destruct (resolve_upvalue_in x (s_cur s) (s_outer s)) as [i c' o'| |] eqn:E.
     + unfold cbind, cret in H. inversion H; subst; clear H.
       destruct (resolve_upvalue_rel _ _ _ _ _ _ E) as (A1 & A2 & A3).
-      destruct Hs as [Hc Ho].
+      destruct Hs as [Hc [Ho Hu]].
       assert (Hle : le s G (mkS c' o' (s_classes s) (s_line s)) G).
       { split; [|split; [|split]]; simpl; auto using ext_refl. apply ofix_cgrow; auto. }
       exists G. split; [|split]; auto.
-      * split; simpl. eapply cinv_ofix; eauto. eapply F2cinv_ofix; eauto.
+      * split; [|split]; simpl. eapply cinv_ofix; eauto. eapply F2cinv_ofix; eauto.
+        eapply resolve_upvalue_chain; eauto.
       * constructor. simpl. right; left. auto.
         eapply holds_le; eauto. left. simpl. apply A1.
     + eapply T_resolve_global; eauto.
@@ -981,14 +1056,15 @@ Definition in_function {A} (k : fk) (name : list byte) (body : C unit) (l : N)
 Lemma T_in_function {A} fs k name body l (K : func * list (N * bool) -> C A) R (Pu : list (N * bool) -> Prop) :
   T [] body (fun _ => []) ->
   (forall s a s', k_upvalues (s_cur s) = [] -> (body ;;; emit_return l) s = COk (a, s') -> Pu (k_upvalues (s_cur s'))) ->
-  (forall fu, T (FPure (fu_good fu /\ Pu (snd fu)) :: fs) (K fu) R) ->
+  (forall fu, T (FPure (fu_good fu /\ Pu (snd fu)) :: FDesc (snd fu) :: fs) (K fu) R) ->
   T fs (in_function k name body l K) R.
 Proof.
-  intros Hb Hpu HK s G a s' Hs Hf H. destruct Hs as [Hc Ho]. unfold in_function in H.
+  intros Hb Hpu HK s G a s' Hs Hf H. destruct Hs as [Hc [Ho Hu]]. unfold in_function in H.
   unfold cbind at 1 in H. unfold new_compiler at 1 in H.
   set (s1 := mkS (new_comp k name) (s_cur s :: s_outer s) (s_classes s) (s_line s)) in *.
   set (G1 := ([], fst G :: snd G) : GS).
-  assert (Hs1 : sinv s1 G1). { split; simpl. constructor; simpl; auto. constructor; auto. }
+  assert (Hs1 : sinv s1 G1).
+  { split; [|split]; simpl. constructor; simpl; auto. constructor; auto. split; auto. constructor. }
   unfold cbind at 1 in H. destruct (body s1) as [[[] s2]|] eqn:E2; [|discriminate].
   destruct (Hb _ _ _ _ Hs1 (Forall_nil _) E2) as (G2 & Hs2 & Hle2 & _).
   unfold cbind at 1 in H. unfold finalise_compiler in H. unfold cbind at 1 in H.
@@ -997,19 +1073,20 @@ Proof.
   { apply (Hpu s1 tt s3). reflexivity. unfold cbind. rewrite E2. exact E3. }
   destruct (T_emit_return [] l _ _ _ _ Hs2 (Forall_nil _) E3) as (G3 & Hs3 & Hle3 & _).
   pose proof (le_trans _ _ _ _ _ _ Hle2 Hle3) as Hle. destruct Hle as (_ & _ & Hof & Hsnd).
-  simpl in Hof, Hsnd. destruct Hs3 as [Hc3 Ho3]. rewrite Hsnd in Ho3.
+  simpl in Hof, Hsnd. destruct Hs3 as [Hc3 [Ho3 Hu3]]. rewrite Hsnd in Ho3.
   destruct (s_outer s3) as [|e3 o3]; [inversion Hof|].
   inversion Hof as [|x1 x2 x3 x4 Hxe Hoo]; subst.
   inversion Ho3 as [|y1 y2 y3 y4 Hce Hco]; subst.
+  destruct Hu3 as [Hu3a Hu3b].
   set (fu := (func_of_comp (s_cur s3), k_upvalues (s_cur s3))) in *.
   set (s4 := mkS e3 o3 (s_classes s3) (s_line s3)) in *.
-  assert (Hs4 : sinv s4 G) by (split; auto).
+  assert (Hs4 : sinv s4 G) by (split; [|split]; auto).
   assert (Hle4 : le s G s4 G).
   { split; [|split; [|split]]; simpl; auto using ext_refl. apply ofix_cgrow; auto. }
   assert (Hfu : fu_good fu).
   { split; simpl; auto. destruct Hc3. unfold func_of_comp. econstructor; eauto. rewrite Nat2N.id. auto. }
-  assert (Hf4 : holds (FPure (fu_good fu /\ Pu (snd fu)) :: fs) s4 G).
-  { constructor. simpl. split; auto. eapply holds_le; eauto. left. simpl. apply Hxe. }
+  assert (Hf4 : holds (FPure (fu_good fu /\ Pu (snd fu)) :: FDesc (snd fu) :: fs) s4 G).
+  { constructor. simpl. split; auto. constructor. simpl. exact Hu3a. eapply holds_le; eauto. left. simpl. apply Hxe. }
   destruct (HK fu _ _ _ _ Hs4 Hf4 H) as (G5 & A1 & A2 & A3).
   exists G5. split; auto. split; auto. eapply le_trans; eauto.
 Qed.
@@ -1033,9 +1110,17 @@ Qed.
 Lemma uvb_length us : length (uvb us) = 2 * length us.
 Proof. induction us; simpl; auto. lia. Qed.
 
-Lemma T_emit_closure fs fu l : In (FPure (fu_good fu)) fs -> T fs (emit_closure fu l) (fun _ => fs).
+Lemma dok_uvb us nu :
+  Forall (fun u : N * bool => snd u = false -> N.to_nat (fst u) < nu) us -> dok (uvb us) nu.
 Proof.
-  intros Hin s G a s' Hs Hf H.
+  induction 1 as [|[i il] us Hu Hr IH]; simpl; auto. split; auto. destruct il; simpl in *; auto. discriminate.
+Qed.
+
+Lemma T_emit_closure fs fu l :
+  In (FPure (fu_good fu)) fs -> In (FDesc (snd fu)) fs -> T fs (emit_closure fu l) (fun _ => fs).
+Proof.
+  intros Hin Hind s G a s' Hs Hf H.
+  pose proof (holds_in _ _ _ _ Hf Hind) as Hdesc. simpl in Hdesc.
   pose proof (holds_in _ _ _ _ Hf Hin) as Hg. simpl in Hg. destruct Hg as [Hg Hu].
   unfold emit_closure in H. unfold cbind at 1 in H.
   destruct (make_constant (KFun (fst fu)) s) as [[c s1]|] eqn:E; [|discriminate].
@@ -1047,7 +1132,7 @@ Proof.
   match goal with |- context [pushb ?s1 ?bs ?l] =>
     destruct (push_ok fs s1 G (OpClosure, [(c mod 256)%N; (c / 256)%N] ++ uvb (snd fu)) l A1 A3) as (B1 & B2 & B3) end.
   { unfold iok. simpl. eexists _, _, (fst fu), _. split; [reflexivity|]. rewrite u16_split. split; auto.
-    rewrite uvb_length, Hu, Nat2N.id. reflexivity. }
+    split. rewrite uvb_length, Hu, Nat2N.id. reflexivity. apply dok_uvb. exact Hdesc. }
   eexists. split; [exact B1|]. split; [|exact B3]. eapply le_trans; [exact A2|exact B2].
 Qed.
 
@@ -1083,6 +1168,16 @@ Proof.
   eapply T_post. apply IHps. intros u4. apply incl_tl, incl_refl.
 Qed.
 
+Lemma T_assume {A} (X : Prop) fs (m : C A) Q : (X -> T (FPure X :: fs) m Q) -> T (FPure X :: fs) m Q.
+Proof. intros HX s G a s' Hs Hf H. inversion Hf; subst. simpl in *. eapply HX; eauto. Qed.
+
+Lemma T_closure_tail fs fu l (Pu : Prop) :
+  T (FPure (fu_good fu /\ Pu) :: FDesc (snd fu) :: fs) (emit_closure fu l) (fun _ => fs).
+Proof.
+  eapply T_pure_impl with (Y := fu_good fu). tauto.
+  eapply T_post. apply T_emit_closure; simpl; auto. intros u. apply incl_tl, incl_tl, incl_refl.
+Qed.
+
 Lemma cbind_assoc {A B D} (m : C A) (f : A -> C B) (g : B -> C D) s :
   cbind (cbind m f) g s = cbind m (fun x => cbind (f x) g) s.
 Proof. unfold cbind. destruct (m s) as [[a s1]|]; auto. Qed.
@@ -1102,8 +1197,7 @@ Proof.
                      { destruct (fk_eqb _ _). eapply T_bind. apply (T_quiet true); auto using q_cur. intros c.
                        apply T_emit_op8; reflexivity. apply T_ret. }
       intros u3. exact Hb.
-    + intros fu. eapply T_pure_impl with (Y := fu_good fu). tauto.
-      eapply T_post. apply T_emit_closure. simpl; auto. intros u. apply incl_tl, incl_refl.
+    + intros fu. apply T_closure_tail.
   - intros s. unfold with_function, in_function. unfold cbind.
     repeat match goal with |- context [match ?m ?s with _ => _ end] => destruct (m s) as [[? ?]|]; auto end.
 Qed.
@@ -1125,12 +1219,11 @@ Proof.
     + eapply T_bind. apply (T_quiet false); auto using q_begin_scope. intros u1. apply T_emit_op8; reflexivity.
     + intros s a s' Hu H. unfold cbind at 1 2 in H. unfold begin_scope, upd in H. rewrite emit_op8_push in H.
       apply emit_return_upv in H. rewrite H. cbn. exact Hu.
-    + intros fu. eapply T_pure_impl with (Y := fu_good (fst fu, [])).
-      { intros [[H1 H2] H3]. rewrite H3 in H2. split; auto. }
-      eapply T_ext with (m := emit_closure (fst fu, []) l ;;; emit_op16 OpStaticMethod nc l).
-      * eapply T_bind. apply T_emit_closure. simpl; auto. intros u2.
+    + intros fu. apply T_assume. intros [_ H3]. destruct fu as [f0 us]. simpl in H3. subst us.
+      eapply T_ext with (m := emit_closure (f0, []) l ;;; emit_op16 OpStaticMethod nc l).
+      * eapply T_bind. apply T_closure_tail. intros u2.
         eapply T_post. apply T_emit_op16. reflexivity. discriminate. simpl; auto.
-        intros u3. apply incl_tl, incl_tl, incl_refl.
+        intros u3. apply incl_tl, incl_refl.
       * intros s. unfold emit_closure, cbind. simpl.
         destruct (make_constant _ s) as [[c s2]|]; auto.
   - intros s. unfold in_function. unfold cbind.
@@ -1148,8 +1241,7 @@ Proof.
   - apply T_in_function with (Pu := fun _ => True); auto.
     + eapply T_bind. apply (T_quiet false); auto using q_begin_scope. intros u.
       eapply T_bind. apply T_cparams. intros u2. exact Hb.
-    + intros fu. eapply T_pure_impl with (Y := fu_good fu). tauto.
-      eapply T_post. apply T_emit_closure. simpl; auto. intros u. apply incl_tl, incl_refl.
+    + intros fu. apply T_closure_tail.
   - intros s. unfold in_function. unfold cbind.
     repeat match goal with |- context [match ?m ?s with _ => _ end] => destruct (m s) as [[? ?]|]; auto end.
 Qed.
